@@ -239,7 +239,8 @@ Known(ev) == ev.op \in MulFamily \cup MoveFamily \cup RowOpsFamily \cup ObsFamil
 (* MC_PLERussian, MC_Echelon) verified, so those results do not transfer to this tree.         *)
 PRu(k) == INSTANCE PLERussian WITH WB <- 64, K <- k, NT <- 7, SB <- 8
 \* the build constants of the traced library (logged by the harness as the first line of every trace)
-Cfg == Tr[CHOOSE i \in 1 .. N : Tr[i].e = "cfg"]
+CfgIdx == {i \in 1 .. N : Tr[i].e = "cfg" /\ {"l2", "l3", "ple_cutoff", "mul_blocksize"} \subseteq DOMAIN Tr[i]}
+Cfg == Tr[CHOOSE i \in CfgIdx : TRUE]
 RECURSIVE Log2Floor(_)
 Log2Floor(v) == IF v <= 1 THEN 0 ELSE 1 + Log2Floor(v \div 2)
 \* the table parameter _mzd_ple_russian chooses for k = 0
@@ -254,11 +255,13 @@ RussianOf(A, k) == PRu(IF k = 0 THEN AutoK(A.m, A.n) ELSE k)!PleRussian(A)
 RussianAuto(A) == RussianOf(A, 0)
 PRn == INSTANCE PLERec WITH WB <- 64, CUTW <- Cfg.ple_cutoff, BLOCKT <- Cfg.mul_blocksize, PIVRULE <- "first", BaseCase <- RussianAuto
 ECH == INSTANCE Echelon WITH KM <- 6
+SV == INSTANCE Solve WITH OLDPAD <- FALSE
+FactOf(R) == [LU |-> R.A, P |-> R.P, Q |-> R.Q, r |-> R.r]
 ConfSmall(o) == o.m * o.n <= 100 * 100 \/ (Cfg.l3 <= 4096 /\ o.m * o.n <= 350 * 270)
 SamePLE(R, ev) == R.r = ev.ret /\ R.P = ev.p.P /\ R.Q = ev.p.Q /\ Eq(R.A, Post(O(ev, 1)))
 ModelDrift(ev) ==
   LET op == ev.op  p == ev.p IN
-  IF ev.die = 1 \/ ~(op \in PleFamily \cup {"echelonize_m4ri"}) \/ ~ConfSmall(O(ev, 1)) THEN {}
+  IF CfgIdx = {} \/ ev.die = 1 \/ ~(op \in PleFamily \cup {"echelonize_m4ri", "solve_left", "_solve_left", "kernel_left_pluq"}) \/ ~ConfSmall(O(ev, 1)) THEN {}
   ELSE LET A == Pre(O(ev, 1)) IN
     CASE op = "_ple_russian" -> LET R == RussianOf(A, p.k) IN IF R.ok /\ SamePLE(R, ev) THEN {} ELSE {"drift_ple_russian"}
       [] op = "_pluq_russian" -> LET R == RussianOf(A, p.k) IN
@@ -267,6 +270,13 @@ ModelDrift(ev) ==
       [] op = "_pluq_naive" -> IF SamePLE(PRn!PluqNaive(A), ev) THEN {} ELSE {"drift_pluq_naive"}
       [] op \in {"ple", "_ple"} -> IF SamePLE(PRn!Ple(A), ev) THEN {} ELSE {"drift_ple_recursive"}
       [] op \in {"pluq", "_pluq"} -> IF SamePLE(PRn!Pluq(A), ev) THEN {} ELSE {"drift_ple_recursive"}
+      [] op \in {"solve_left", "_solve_left"} ->
+           IF ev.ret # 0 THEN {}
+           ELSE LET F == FactOf(PRn!Pluq(A))  S == SV!PluqSolveLeft(F, A.m, A.n, Pre(O(ev, 2))) IN
+                IF S.ret = 0 /\ Eq(S.B, Post(O(ev, 2))) /\ Eq(F.LU, Post(O(ev, 1))) THEN {} ELSE {"drift_solve"}
+      [] op = "kernel_left_pluq" ->
+           LET F == FactOf(PRn!Pluq(A))  Kk == SV!KernelFrom(F, A.n) IN
+           IF Kk.has = HasR(ev) /\ (Kk.has => Eq(Kk.K, Post(ev.o[Len(ev.o)]))) /\ Eq(F.LU, Post(O(ev, 1))) THEN {} ELSE {"drift_kernel"}
       [] op = "echelonize_m4ri" ->
            IF p.k < 1 THEN {}
            ELSE LET R == ECH!EchelonM4RI(A, p.full = 1, p.k) IN
